@@ -292,6 +292,9 @@ SIBLINGS = [
     ("repartition", {"npartitions": 7}, {"npartitions": 9}),
     ("repartition", {"npartitions": 1}, {"npartitions": 2}),
     ("shuffle", {"on": "k", "npartitions": 2}, {"on": "k", "npartitions": 3}),
+    ("shuffle", {"on": "k", "npartitions": 3, "shuffle_method": "tasks", "max_branch": 2, "ignore_index": False}, {"on": "k", "npartitions": 3, "shuffle_method": "tasks", "max_branch": 2, "ignore_index": True}),
+    ("shuffle", {"on": "k", "npartitions": 4, "shuffle_method": "tasks", "max_branch": 2, "ignore_index": False}, {"on": "k", "npartitions": 4, "shuffle_method": "tasks", "max_branch": 3, "ignore_index": False}),
+    ("shuffle", {"on": "k", "npartitions": 4, "shuffle_method": "tasks", "max_branch": 2, "ignore_index": False}, {"on": "s", "npartitions": 4, "shuffle_method": "tasks", "max_branch": 2, "ignore_index": False}),
     ("shuffle", {"on": "k", "npartitions": 2}, {"on": "s", "npartitions": 2}),
     ("sort_values", {"by": ["f"], "ascending": True, "na_position": "last"}, {"by": ["f"], "ascending": False, "na_position": "last"}),
     ("sort_values", {"by": ["i"], "ascending": True, "na_position": "last"}, {"by": ["i"], "ascending": True, "na_position": "first"}),
@@ -321,6 +324,10 @@ SIBLINGS = [
     ("dropna", {"subset": ["f"]}, {"subset": ["g"]}),
     ("loc_slice", {"lo": 2, "hi": None}, {"lo": 4, "hi": None}),
     ("loc_list", {"labels": [5, 1, 3]}, {"labels": [1, 3, 5]}),
+    ("rolling:f,i", {"window": 2, "min_periods": None, "center": False, "how": "sum"}, {"window": 3, "min_periods": None, "center": False, "how": "sum"}),
+    ("rolling:f,i", {"window": 2, "min_periods": 1, "center": False, "how": "sum"}, {"window": 2, "min_periods": 1, "center": True, "how": "sum"}),
+    ("shift:f,i", {"f": "shift", "periods": 1}, {"f": "shift", "periods": 2}),
+    ("shift:f,i", {"f": "diff", "periods": 1}, {"f": "shift", "periods": -1}),
     ("merge", {"on": ["k"], "how": "inner", "suffixes": None, "broadcast": None, "shuffle_method": "tasks"}, {"on": ["k"], "how": "left", "suffixes": None, "broadcast": None, "shuffle_method": "tasks"}),
     ("merge", {"on": ["k"], "how": "inner", "suffixes": None, "broadcast": True, "shuffle_method": None}, {"on": ["k"], "how": "inner", "suffixes": None, "broadcast": False, "shuffle_method": "tasks"}),
 ]
